@@ -55,6 +55,7 @@ var structOfFieldTypes = []reflect.Type{
 	reflect.TypeOf(map[string]za.Inner(nil)), reflect.TypeOf([]zb.Inner(nil)), reflect.TypeOf([2]za.Inner{}), reflect.TypeOf(map[string][]int(nil)), reflect.TypeOf(float32(0)), reflect.TypeOf(uint16(0)),
 	reflect.TypeOf(int8(0)), reflect.TypeOf(int16(0)), reflect.TypeOf(int32(0)), reflect.TypeOf(uint32(0)), reflect.TypeOf(uint(0)), reflect.TypeOf([]float32(nil)), reflect.TypeOf([]*za.Inner(nil)), reflect.TypeOf(map[string]*zb.Item(nil)), reflect.TypeOf([]any(nil)), reflect.TypeOf((*any)(nil)).Elem(),
 	reflect.TypeOf(uint64(0)), reflect.TypeOf([]uint64(nil)), reflect.TypeOf(map[string]uint64(nil)), reflect.TypeOf([2]uint64{}), reflect.TypeOf([]uint(nil)), reflect.TypeOf((*uint64)(nil)),
+	reflect.TypeOf([2]any{}), reflect.TypeOf([][2]any(nil)), reflect.TypeOf(map[string]any(nil)), reflect.TypeOf((*[2]any)(nil)), reflect.TypeOf([]map[string]any(nil)), reflect.TypeOf([1][]any{}),
 	reflect.TypeOf([]int8(nil)), reflect.TypeOf([]uint16(nil)), reflect.TypeOf(map[string]int32(nil)), reflect.TypeOf([]int64(nil)), reflect.TypeOf(map[string]float32(nil)), reflect.TypeOf([]bool(nil)),
 }
 
@@ -202,10 +203,6 @@ func fill(t *rapid.T, rv reflect.Value, depth int) {
 			k := reflect.ValueOf([]string{"k", "a", "key 2", "b", "K", "é", "zz", ""}[sim.Intn(t, 8, "mkey")])
 			e := reflect.New(rv.Type().Elem()).Elem()
 			fill(t, e, depth-1)
-			if e.Kind() == reflect.Ptr && e.IsNil() {
-				e.Set(reflect.New(rv.Type().Elem().Elem()))
-				fill(t, e.Elem(), depth-1)
-			}
 			m.SetMapIndex(k, e)
 		}
 		rv.Set(m)
